@@ -17,7 +17,7 @@ for log in sys.argv[1:]:
         if "checks" not in d:
             continue
         pid, var = tag[:3], tag[3:]
-        src = {"A": "/tmp/mut_%s_out", "B": "/tmp/mut_%s_out", "C": "/tmp/mut2_%s_out", "D": "/tmp/mut2_%s_out"}.get(var, "/tmp/mut3_%s_out" if var in "EF" else ("/tmp/mut4_%s_out" if var in "GH" else ("/tmp/mut5_%s_out" if var in "IJ" else "/tmp/mut6_%s_out"))) % pid
+        src = {"A": "/tmp/mut_%s_out", "B": "/tmp/mut_%s_out", "C": "/tmp/mut2_%s_out", "D": "/tmp/mut2_%s_out"}.get(var, "/tmp/mut3_%s_out" if var in "EF" else ("/tmp/mut4_%s_out" if var in "GH" else ("/tmp/mut5_%s_out" if var in "IJ" else ("/tmp/mut6_%s_out" if var in "KL" else "/tmp/mut7_%s_out")))) % pid
         confirmed = d.get("baseline_ok") and d.get("demo_with_change_rc") == 1 and d.get("demo_without_change_rc") == 0
         if not confirmed:
             print(tag, "NOT confirmed:", d.get("baseline"), d.get("demo_with_change_rc"), d.get("demo_without_change_rc"))
@@ -36,18 +36,21 @@ for log in sys.argv[1:]:
         res = dict(old.get("detected_by", {}))
         for c, v in d["checks"].items():
             res[c] = {"tier": d.get("tier"), "exit": v["rc"], "mechanism": (v["mechanisms"] or v["inconclusive"] or [""])[0][:300]}
+        hist = old.get("history")
         out = {
             "id": "%s-%s" % (pid, var),
             "breaks_property": pid,
             "summary": meta.get("summary"),
-            "needs_to_manifest": meta.get("needs"),
+            "needs_to_manifest": meta.get("needs_to_manifest") or meta.get("needs"),
             "author": "independent sub-agent given only the property text and a scratch worktree",
-            "author_ran": meta.get("ran"),
+            "author_ran": meta.get("author_ran") or meta.get("ran"),
             "confirmed_here": {"baseline_467_still_pass": True, "demo_exit_with_change": 1, "demo_exit_without_change": 0,
                                "how": "tools/mutant.py: patch applied in a scratch worktree outside /repo and /verif, tools/baseline_off.py, demo, checks with BBVERIF_REPO=<worktree>, patch reverted, demo again",
                                "note": "the demonstration asserts that blackbird is imported from the scratch worktree %s" % (src[:-4]),
                                "base_commit": d.get("base")},
             "detected_by": res,
         }
+        if hist:
+            out["history"] = hist
         json.dump(out, open(os.path.join(dst, "meta.json"), "w"), indent=1)
         print(tag, "kept;", {c: v["exit"] for c, v in res.items()})
